@@ -413,6 +413,15 @@ def exempt_species(db, o, meta):
                         ex.add(m2["species"])
         # elements whose valence states are distributed with a redox couple instead of the solution pe: the reactions
         # between their secondary master species hold with the COUPLE's electron activity, not with la(e-) = -pe
+        # LLNL-style databases write the redox reactions of master species with O2 (Cl- + 0.5 O2 = ClO-).  When O(0) is
+        # given by input, la(O2) is fixed by that input while the other elements are distributed with the solution pe (the
+        # engine rewrites O2 to e- in rxn_secondary): reactions of master species of OTHER elements that contain an
+        # input-fixed valence-state master species are not imposed with its reported activity
+        fixed = set(ex)
+        for n in db.usable:
+            sp = db.d["species"][n]
+            if sp["is_master"] and not sp["identity"] and n not in fixed and any(x in fixed and x != n for c, x in sp["eq"]):
+                ex.add(n)
         cels = list(meta.get("couple_elements") or [])
         if meta.get("couple_default"):
             cels += ["H", "O"]            # O2 and H2 of an initial solution follow the default redox couple as well
